@@ -55,10 +55,16 @@ class C04(Check):
         self.quick_sws = sorted(s for s in sws if 0 <= s <= 0xFFFF)
         # nominal runs: number of exchanges and step kinds
         self.nominal = {}
+        self.pre_violations = []
         for name, req in self.reqs.items():
             w, o = self.run(name, None)
             if o.exc is not None or not isinstance(o.reply, dict) or o.reply.get("errorcode") not in (0, 1):
-                raise HarnessError("nominal run of %s fails on this tree: %r %r" % (name, o.reply, o.exc))
+                # the fault-free dialogue itself no longer succeeds: that is a violation of
+                # clause (ii) (device reported success => code 0/1), reported as such
+                self.pre_violations.append(Violation(
+                    "C04", "C04:nominal-dialogue-fails:%s" % name, {"name": name, "idx": 0,
+                                                                    "fault": ["none"]}, None,
+                    {"reply": o.reply, "exc": o.exc}, {"errorcode": "0/1"}, "nominal"))
             ex = w.exchanges()
             self.nominal[name] = {"n": len(ex), "reply": o.reply,
                                   "kinds": [dialogues.classify_exchange(name, e[2]) for e in ex],
@@ -110,6 +116,8 @@ class C04(Check):
         vs = []
         name, idx = case["name"], case["idx"]
         if "fault" in case:
+            if case["fault"] == ["none"]:
+                return [v for v in self.pre_violations if v.d["case"]["name"] == name]
             self.one(name, idx, tuple(case["fault"]), stats, vs)
             return vs
         if self.thorough:
